@@ -61,6 +61,11 @@ func Compile(grammar *Grammar, opts Options) (*Tables, error) {
 	if opts.MinimizeDFA {
 		minimize(c.out, grammar)
 	}
+	if opts.Optimize && c.out.UsedLADepth > 0 {
+		// The displacement encoding cannot represent the multi-token lookahead automaton.
+		c.s.Errorf(grammar.Origin, "optimizeTables cannot be combined with conflicts resolved by lalr(%v) lookahead", c.lookahead)
+		opts.Optimize = false
+	}
 	if opts.Optimize {
 		numRules := len(c.out.RuleLen) // takes into account runtime lookahead rules
 		c.out.Optimized = Optimize(c.out.DefaultEnc, grammar.Terminals, numRules, opts.DefaultReduce)
